@@ -18,8 +18,8 @@ namespace Tls.Order
 def hsRunK (c : Cfg) : St → List MsgKind → Bool
   | _, [] => false
   | s, k :: ks =>
-    if s == .dead || s == .done then false
-    else match stepK c s k false with
+    if s == .dead || s.isPost then false
+    else match stepK c s 0 k false with
       | .next s' _ => if s' == .done then ks.isEmpty else hsRunK c s' ks
       | .ignore => hsRunK c s ks
       | _ => false
@@ -33,7 +33,7 @@ def checkFrom (c : Cfg) : Nat → St → List MsgKind → Bool
   | 0, _, _ => false
   | fuel + 1, s, pre =>
     MsgKind.all.all fun k =>
-      match stepK c s k false with
+      match stepK c s 0 k false with
       | .next s' _ =>
           nt c k &&
           (if s' == .done then lang c (pre ++ [k])
@@ -77,7 +77,7 @@ theorem checkFrom_sound (c : Cfg) :
       · cases hrun
       · -- the state is live
         revert hk hrun
-        cases hst : stepK c s k false with
+        cases hst : stepK c s 0 k false with
         | next s' b =>
           intro hk hrun
           simp only [Bool.and_eq_true] at hk
@@ -108,7 +108,9 @@ theorem checkFrom_sound (c : Cfg) :
         | acceptAbort a => intro _ h; cases h
         | warn => intro _ h; cases h
         | deliver => intro _ h; cases h
-        | post => intro _ h; cases h
+        | post b => intro _ h; cases h
+        | phaStart s' => intro _ h; cases h
+        | buffer k' => intro _ h; cases h
         | abort a => intro _ h; cases h
         | peerClosed => intro _ h; cases h
         | acceptClosed => intro _ h; cases h
